@@ -84,3 +84,18 @@ func VerifLocalChannel(ps pubsub.PubSub, chid string) (present bool, subs int) {
 	s, ok := m.channels[chid]
 	return ok, len(s)
 }
+
+// VerifPeerQueue reports the occupancy and capacity of the send queue of the
+// (single) peer session of the router; ok is false if there is not exactly one.
+func VerifPeerQueue(ps pubsub.PubSub) (n, c int, ok bool) {
+	m := ps.(*FloodSub)
+	m.mtx.Lock()
+	defer m.mtx.Unlock()
+	if len(m.peers) != 1 {
+		return 0, 0, false
+	}
+	for _, p := range m.peers {
+		return len(p.packetCh), cap(p.packetCh), true
+	}
+	return 0, 0, false
+}
